@@ -119,6 +119,19 @@ var a16ExternalAllow = map[string]string{
 	"reflect.TypeOf":                         "no allocation (reads the type word)",
 	"(*reflect.rtype).String":                "returns the type's name string",
 	"context.Background":                     "pure",
+	// fixed-width big/little-endian stores and loads into a caller-provided slice
+	"(encoding/binary.bigEndian).PutUint16":    "writes into the destination",
+	"(encoding/binary.bigEndian).PutUint32":    "writes into the destination",
+	"(encoding/binary.bigEndian).PutUint64":    "writes into the destination",
+	"(encoding/binary.bigEndian).Uint16":       "pure",
+	"(encoding/binary.bigEndian).Uint32":       "pure",
+	"(encoding/binary.bigEndian).Uint64":       "pure",
+	"(encoding/binary.littleEndian).PutUint16": "writes into the destination",
+	"(encoding/binary.littleEndian).PutUint32": "writes into the destination",
+	"(encoding/binary.littleEndian).PutUint64": "writes into the destination",
+	"math.Float32frombits":                     "pure",
+	"math.Float64frombits":                     "pure",
+	"math.Signbit":                             "pure",
 }
 
 type a16 struct {
@@ -198,6 +211,153 @@ func (a *a16) coldReason(b *ssa.BasicBlock) string {
 	}
 	if reason == "" && neqLevel >= 9 {
 		reason = "level outside the declared constants"
+	}
+	if reason == "" && a.lvlT != nil {
+		// the same, however the declared constants are excluded (`case TraceLevel <= l && l <=
+		// PanicLevel`, then `!= Disabled`, `!= NoLevel`): no declared level satisfies the conditions
+		// that lead here
+		var subject ssa.Value
+		lc := levelConsts(a.p)
+		possible := map[int64]bool{}
+		for _, v := range lc {
+			possible[v] = true
+		}
+		constrained := false
+		for _, e := range edges {
+			c, ok := cmpOf(e)
+			if !ok {
+				continue
+			}
+			x, y, op := c.X, c.Y, c.Op
+			if _, isC := constInt(x); isC {
+				x, y, op = y, x, swapOp(op)
+			}
+			n, isC := constInt(y)
+			if !isC || !types.Identical(x.Type(), a.lvlT) {
+				continue
+			}
+			if subject == nil {
+				subject = x
+			}
+			if x != subject {
+				continue
+			}
+			constrained = true
+			for v := range possible {
+				keep := true
+				switch op {
+				case token.EQL:
+					keep = v == n
+				case token.NEQ:
+					keep = v != n
+				case token.LSS:
+					keep = v < n
+				case token.LEQ:
+					keep = v <= n
+				case token.GTR:
+					keep = v > n
+				case token.GEQ:
+					keep = v >= n
+				}
+				if !keep {
+					delete(possible, v)
+				}
+			}
+		}
+		if constrained && len(lc) >= 9 && len(possible) == 0 {
+			reason = "level outside the declared constants"
+		}
+		// a range test splits the ways into the block (`l < TraceLevel` or `l > PanicLevel`): decide
+		// per path — the block is cold when no declared level can travel any path that reaches it
+		if reason == "" && constrained && len(lc) >= 9 && subject != nil && len(f.Blocks) <= 64 {
+			paths, complete := enumPaths(f, 1, 2000)
+			anyLevel, through := false, 0
+			for _, pa := range paths {
+				hit := false
+				for _, pb := range pa.Blocks {
+					if pb == b {
+						hit = true
+					}
+				}
+				if !hit {
+					continue
+				}
+				through++
+				poss := map[int64]bool{}
+				for _, v := range lc {
+					poss[v] = true
+				}
+				// only the conditions met before the block is entered count
+				for i, pb := range pa.Blocks {
+					if pb == b {
+						break
+					}
+					ifi, ok := pb.Instrs[len(pb.Instrs)-1].(*ssa.If)
+					if !ok || i+1 >= len(pa.Blocks) || pb.Succs[0] == pb.Succs[1] {
+						continue
+					}
+					// look through `a && b` compiled as a boolean phi: the value the path carried in
+					cond, pol := ifi.Cond, pa.Blocks[i+1] == pb.Succs[0]
+					for d := 0; d < 4; d++ {
+						if u, ok := cond.(*ssa.UnOp); ok && u.Op == token.NOT {
+							cond, pol = u.X, !pol
+							continue
+						}
+						if ph, ok := cond.(*ssa.Phi); ok {
+							if v := pa.ResolveAt(ph, i); v != ssa.Value(ph) {
+								cond = v
+								continue
+							}
+						}
+						break
+					}
+					if bv, isB := constBool(cond); isB {
+						if bv != pol {
+							poss = map[int64]bool{} // the path contradicts itself: nothing travels it
+						}
+						continue
+					}
+					c, ok := cmpOf(CondEdge{&ssa.If{Cond: cond}, pol})
+					if !ok {
+						continue
+					}
+					x, y, op := c.X, c.Y, c.Op
+					if _, isC := constInt(x); isC {
+						x, y, op = y, x, swapOp(op)
+					}
+					n, isC := constInt(y)
+					if !isC || x != subject {
+						continue
+					}
+					for v := range poss {
+						keep := true
+						switch op {
+						case token.EQL:
+							keep = v == n
+						case token.NEQ:
+							keep = v != n
+						case token.LSS:
+							keep = v < n
+						case token.LEQ:
+							keep = v <= n
+						case token.GTR:
+							keep = v > n
+						case token.GEQ:
+							keep = v >= n
+						}
+						if !keep {
+							delete(poss, v)
+						}
+					}
+				}
+				if len(poss) > 0 {
+					anyLevel = true
+				}
+			}
+			if complete && through > 0 && !anyLevel {
+				reason = "level outside the declared constants"
+			}
+		}
 	}
 	a.cold[b] = reason
 	return reason
